@@ -457,6 +457,14 @@ def _corr_clamp(ctx, out):
         if want != got:
             add_failure(out, "corr", "Calculator.optimise clamp: model differs", dict(x=x, lower=lo, upper=hi), want, got, confirmed=False)
             continue
+        # (audit) the model's `inBounds` (conclusion of start_clamp_in_bounds) against bounded_function's own test
+        lo_a = numpy.array([-numpy.inf if v is None else v for v in lo], float)
+        hi_a = numpy.array([numpy.inf if v is None else v for v in hi], float)
+        g = numpy.array(got, float)
+        real_in = bool(numpy.all(numpy.logical_and(lo_a <= g, g <= hi_a)))
+        if real_in != rep["in_bounds"]:
+            add_failure(out, "corr", "inBounds: model differs from bounded_function's test", dict(x=x, lower=lo, upper=hi), rep["in_bounds"], real_in, confirmed=False)
+            continue
         bump(out, "clamp", "changed" if got != x else "unchanged")
         bump(out, "clamp_in_bounds_after", rep["in_bounds"])
         if got != x:
@@ -773,11 +781,19 @@ def _corr_scoped(ctx, out):
             want = sorted(((r["par"], None if r["edges"] is None else sorted(r["edges"]), float(unrat(r["val"]))) for r in rep["rules"]), key=repr)
             want = [list(w) for w in want]
         else:
-            want = rep
+            want = {"err": rep.get("err", rep.get("error"))}
         if want != got:
             add_failure(out, "corr", "update_scoped_rules: model differs", dict(rich=rich, null=null), want, got, confirmed=False)
             continue
         bump(out, "scoped_outcome", got["err"] if isinstance(got, dict) else "ok")
+        # (audit) how often the hypotheses of the scoped-rules theorems hold on the generated lists, and the
+        # theorem's conclusion evaluated by the driver whenever the executable hypothesis `wfrB` holds
+        bump(out, "scoped_generated_hypothesis", "WF.quirk(all null rules)+wfrB" if rep.get("wfr") and rep.get("quirk_all")
+             else "wfrB only" if rep.get("wfr") else "neither")
+        if rep.get("wfr") and rep.get("conclusion") is False:
+            add_failure(out, "corr", "update_scoped_rules: wfrB holds but the proved conclusion is false in the driver",
+                        dict(rich=rich, null=null), True, rep, confirmed=False)
+            continue
         if not isinstance(got, dict):
             changed = sum(1 for g in got if g[2] != 1.0)
             bump(out, "scoped_rules_out", min(len(got), 8))
@@ -787,19 +803,153 @@ def _corr_scoped(ctx, out):
                 out["samples"].append(dict(rich=rich, null=null, result=got))
 
 
+# --------------------------------------------------------------------------
+# (F) update_scoped_rules on the rule lists the REAL initialise_from_nested passes to it  (audit addition)
+# --------------------------------------------------------------------------
+def _scope_of(r):
+    """(edges, single) exactly as `rule.get("edges", rule.get("edge"))` reads a rule"""
+    sc = r.get("edges", r.get("edge"))
+    if isinstance(sc, str):
+        return [sc], True
+    if sc is None:
+        return None, False
+    return list(sc), False
+
+
+def _corr_scoped_real(ctx, out):
+    """Stream (E) ties `Model/ScopedRules.lean` on GENERATED rule lists only.  Here the arguments and the result of
+    `update_scoped_rules` are captured inside the real `LikelihoodFunction.initialise_from_nested` (real
+    `get_param_rules()` output after the real `_ParamProjection.update_param_rules`), the model is run on exactly
+    those lists, and the driver evaluates the executable hypothesis `wfrB` of `scoped_rules_preserve_values_checked`
+    and the original `WF.quirk` clause on them: this is what shows that the theorem's hypothesis is reachable."""
+    from copy import deepcopy
+
+    import cogent3.evolve.likelihood_function as L
+
+    rng = ctx.subrng("scoped-real")
+    configs = []
+    n_rounds = ctx.budget(2, 12)
+    for _ in range(n_rounds):
+        tree_s, taxa = rng.choice(TREES[1:])
+        for kind, label, nm, nr, am, ar in _scoping_cases(rng, tree_s, taxa):
+            configs.append((label, nm, nr, am, ar, tree_s, taxa))
+        pairs = [p for p in NESTED_NUC if _rate_params(p[0])]
+        rng.shuffle(pairs)
+        for a, b in pairs[: ctx.budget(8, 16)]:
+            variant = rng.choice(["free", "const", "bounded", "edge", "clade", "mixed"])
+            tree_s, taxa = rng.choice(TREES[1:])
+            nr, ar = _null_variant(rng, variant, a, b, taxa)
+            configs.append((f"{_pair_class(a, b)}:{variant}", a, nr, b, ar, tree_s, taxa))
+    captured = []
+    orig = L.update_scoped_rules
+
+    def spy(rich, null):
+        rec = dict(rich=deepcopy(rich), null=deepcopy(null))
+        captured.append(rec)
+        try:
+            res = orig(rich, null)
+        except Exception as e:
+            rec["err"] = type(e).__name__
+            raise
+        rec["out"] = deepcopy(res)
+        return res
+
+    metas = []
+    L.update_scoped_rules = spy
+    try:
+        for label, nm, nr, am, ar, tree_s, taxa in configs:
+            aln = _alignment(taxa, 0, 150)
+            import random
+
+            n0 = len(captured)
+            try:
+                with warnings.catch_warnings():
+                    warnings.simplefilter("ignore")
+                    null = _mk_lf(nm, tree_s, aln, nr)
+                    _random_start(null, random.Random(rng.randrange(10**6)), nm)
+                    alt = _mk_lf(am, tree_s, aln, ar)
+                    alt.initialise_from_nested(null)
+            except Exception as e:
+                bump(out, "scoped_real_init", "raised " + type(e).__name__)
+            else:
+                bump(out, "scoped_real_init", "ok")
+            if len(captured) == n0:
+                bump(out, "scoped_real_not_reached", label.split(":")[0])
+                continue
+            metas.append((len(captured) - 1, label, nm, am))
+    finally:
+        L.update_scoped_rules = orig
+
+    ids = {}
+
+    def vid(v):
+        key = repr(sorted((k, float(x)) for k, x in v.items())) if isinstance(v, dict) else repr(float(v))
+        return ids.setdefault(key, len(ids))
+
+    def req_rule(r):
+        edges, single = _scope_of(r)
+        return dict(par=r["par_name"], edges=edges, single=single, val=rat(vid(r.get("init", r.get("value")))))
+
+    def canon_out(r):
+        # what update_rule_value wrote: "init" if the rich rule had one, else "value"
+        sc = [r["edge"]] if r.get("edge") is not None else r.get("edges")
+        return [r["par_name"], None if sc is None else sorted(sc), vid(r["init"] if "init" in r else r.get("value"))]
+
+    reqs = [("scoped", dict(rich=[req_rule(r) for r in captured[i]["rich"]], null=[req_rule(r) for r in captured[i]["null"]]))
+            for i, *_ in metas]
+    reps = ctx.driver.batch(reqs) if reqs else []
+    for (i, label, nm, am), rep in zip(metas, reps):
+        out["evaluations"] += 1
+        rec = captured[i]
+        inp = dict(label=label, null=nm, alt=am, rich_rules=[(r["par_name"],) + tuple(_scope_of(r)) for r in rec["rich"]],
+                   null_rules=[(r["par_name"],) + tuple(_scope_of(r)) for r in rec["null"]])
+        if "error" in rep:
+            add_failure(out, "corr", "driver error (scoped, real rule lists)", inp, None, rep, confirmed=False)
+            continue
+        if "err" in rec:
+            got = {"err": rec["err"]}
+        else:
+            got = sorted((canon_out(r) for r in rec["out"]), key=repr)
+        if "rules" in rep:
+            want = sorted(([r["par"], None if r["edges"] is None else sorted(r["edges"]), int(unrat(r["val"]))] for r in rep["rules"]), key=repr)
+        else:
+            want = {"err": rep.get("err")}
+        if want != got:
+            add_failure(out, "corr", "update_scoped_rules on REAL rule lists: model differs", inp, want, got, confirmed=False)
+            continue
+        hyp = ("WF(all null rules)" if rep["quirk_all"] and rep["wfr"] else "WFr only (a key-matched null rule is written \"edge\": name)"
+               if rep["wfr"] else "neither")
+        bump(out, "scoped_real_hypothesis", hyp)
+        bump(out, "scoped_real_class", label.split(":")[0] if ":" in label else "scoping-case")
+        bump(out, "scoped_real_outcome", got["err"] if isinstance(got, dict) else "ok")
+        if rep["wfr"] and rep.get("conclusion") is False:
+            add_failure(out, "corr", "REAL rule lists: wfrB holds but the proved conclusion is false in the driver", inp, True, rep, confirmed=False)
+            continue
+        if rep["wfr"] and not isinstance(got, dict):
+            # non-trivial: the theorem applies and some rule really took a nested value through a non-1-to-1 branch
+            null_keys = {frozenset([r["par_name"]] + (_scope_of(r)[0] or [])) for r in rec["null"]}
+            if any(frozenset([r["par_name"]] + (_scope_of(r)[0] or [])) not in null_keys for r in rec["rich"]):
+                out["nontrivial"].add(("scoped-real", label, nm, am, str(inp["rich_rules"])))
+                bump(out, "scoped_real_theorem_applies_beyond_1to1")
+
+
 def correspondence(ctx):
     out = new_outcome(
         "(A) scripted optimisers through the real maximise: seeded random objective tables (raises, NaN, ±inf, ties), "
         "query lists with out-of-bounds points, max_evaluations None/0..n+2, local/global/both; non-trivial = >= 3 calls "
         "of the objective. (B) real Powell/SA traces; non-trivial = best point is not the last query. (C) start clamp; "
         "non-trivial = vector changed. (D) generated + named coordinate families; non-trivial = some rich parameter mapped. "
-        "(E) update_scoped_rules on generated rule lists (nested partitions of the edges, free / per-edge / clade scopes, singular \"edge\" form, name collisions, malformed); non-trivial = some rule value changed"
+        "(E) update_scoped_rules on generated rule lists (nested partitions of the edges, free / per-edge / clade scopes, singular \"edge\" form, name collisions, malformed); non-trivial = some rule value changed. "
+        "(F) update_scoped_rules on the rule lists captured inside the real initialise_from_nested (scoping cases + nested named pairs with "
+        "free/const/bounded/edge/clade/mixed nulls, random null values): model vs real result, and the executable hypothesis wfrB of "
+        "scoped_rules_preserve_values_checked evaluated on them; non-trivial = wfrB holds and some rich rule is not key-matched"
     )
     _corr_scripted(ctx, out)
     _corr_real_optimisers(ctx, out)
     _corr_clamp(ctx, out)
     _corr_mapping(ctx, out)
     _corr_scoped(ctx, out)
+    _corr_scoped_real(ctx, out)
     return out
 
 
@@ -888,7 +1038,10 @@ def _run_init_case(case):
     info["delta"] = d
     if not abs(d) <= _tol(null.lnL):
         pressed = _at_bound(alt)
-        if pressed:
+        # (audit) "some parameter sits on a bound" alone used to excuse ANY lnL difference (a projection that is wrong by
+        # a large factor is clipped too and was silently skipped).  The excuse is now accepted only if the SAME projected
+        # rules, applied to a fresh alternative whose box is widened to contain them, do reproduce the nested lnL.
+        if pressed and _widened_box_reproduces(case, null, aln):
             # the null optimum, mapped into the alt parameterisation, lies outside the alt's declared box and was
             # clipped onto the bound: the *bounded* models are not nested (outside the quantifier)
             info["skipped"] = "null image outside the alt's bounds (clipped)"
@@ -896,6 +1049,58 @@ def _run_init_case(case):
             return None, info
         return dict(kind="lnL", delta=d), info
     return None, info
+
+
+def _widened_box_reproduces(case, null, aln):
+    return _widened_box_reproduces_f(
+        lambda: _mk_lf(case["alt"], case["tree"], aln, case.get("alt_rules", ()), case.get("alt_kw")), null)
+
+
+def _widened_box_reproduces_f(mk_alt, null):
+    """re-derive the projected rules (the value update_scoped_rules returns inside initialise_from_nested), widen
+    lower/upper of every scalar rule so that its value is strictly inside, apply them to a fresh alternative and
+    compare lnL with the nested model's"""
+    from copy import deepcopy
+
+    import cogent3.evolve.likelihood_function as L
+
+    got = []
+    orig = L.update_scoped_rules
+
+    def spy(rich, nul):
+        res = orig(rich, nul)
+        got.append(deepcopy(res))
+        return res
+
+    L.update_scoped_rules = spy
+    try:
+        with warnings.catch_warnings():
+            warnings.simplefilter("ignore")
+            mk_alt().initialise_from_nested(null)
+    except Exception:
+        return False
+    finally:
+        L.update_scoped_rules = orig
+    if not got:
+        return False
+    rules = got[-1]
+    for r in rules:
+        v = r.get("init")
+        if v is None or isinstance(v, dict) or r.get("is_constant"):
+            continue
+        v = float(v)
+        if r.get("lower") is not None and v <= r["lower"]:
+            r["lower"] = v / 2 if v > 0 else v - 1.0
+        if r.get("upper") is not None and v >= r["upper"]:
+            r["upper"] = v * 2 if v > 0 else v + 1.0
+    try:
+        with warnings.catch_warnings():
+            warnings.simplefilter("ignore")
+            alt2 = mk_alt()
+            alt2.apply_param_rules(rules)
+            return abs(float(alt2.lnL) - float(null.lnL)) <= _tol(null.lnL)
+    except Exception:
+        return False
 
 
 def _at_bound(lf):
@@ -1361,7 +1566,8 @@ def _link_outside_box(prev_lf, spec, case, aln):
         return None
     pressed = _at_bound(alt)  # clipped already by the fresh function's own default box [1e-6, 1e6]
     if pressed:
-        return pressed
+        # (audit) accepted only if the projected rules reproduce the nested lnL once the box contains them
+        return pressed if _widened_box_reproduces_f(lambda: _fresh_like(spec, case, aln), prev_lf) else None
     if abs(float(alt.lnL) - float(prev_lf.lnL)) > _tol(prev_lf.lnL):
         return None
     bad = []
@@ -1524,6 +1730,9 @@ def match_finding(f, k):
     if r.get("null_in") and inp.get("null") not in r["null_in"]:
         return False
     if r.get("alt") and inp.get("alt") != r["alt"]:
+        return False
+    # (audit) an IndexError raised somewhere else on the same pair (e.g. in update_scoped_rules) is a different defect
+    if r.get("msg_has") and r["msg_has"] not in str((f.get("got") or {}).get("msg", "")):
         return False
     return True
 
